@@ -1,7 +1,7 @@
 (* Props/C07.v — C07: Thumb decode (16-bit class selection).  Statement only; proof in Proofs/DecThumb16.v by exhaustive
    evaluation over all 2^16 halfwords inside Coq (the bound is in the statement). *)
 From Coq Require Import ZArith Bool List String.
-From ArmV Require Import Lib.PyZ Proofs.Cube Proofs.DecodeReify Spec.DecTables Spec.DecTablesT32 Proofs.DecThumb16 Proofs.DecThumb32.
+From ArmV Require Import Lib.PyZ Proofs.Cube Proofs.DecodeReify Spec.DecTables Spec.DecTablesT32 Proofs.DecThumb16 Proofs.DecArm1 Proofs.DecThumb32.
 From Gen Require Import bits_ops opsyn decoders.
 Import ListNotations.
 Open Scope Z_scope.
@@ -33,3 +33,54 @@ Theorem C07_thumb32_plain_binary_immediate w : 0 <= w < 2 ^ 32 ->
   dec_thumb_data_processing_plain_binary_immediate w = eval_leaf no_env None (lookup t32_pbi_table (LRet None) w) w.
 Proof. exact (dec_thumb32_plain_binary_immediate_table w). Qed.
 Print Assumptions C07_thumb32_plain_binary_immediate.
+
+(* further 32-bit Thumb groups (A6.3.5-A6.3.17), each for every one of the 2^32 words *)
+Theorem C07_thumb32_lsm w : 0 <= w < 2 ^ 32 ->
+  dec_thumb_load_store_multiple w = eval_leaf no_env None (lookup t32_lsm_table (LRet None) w) w.
+Proof. exact (dec_thumb32_lsm_table w). Qed.
+Print Assumptions C07_thumb32_lsm.
+Theorem C07_thumb32_dual w : 0 <= w < 2 ^ 32 ->
+  dec_thumb_load_store_dual_load_store_exclusive_table_branch w = eval_leaf no_env None (lookup t32_dual_table (LRet None) w) w.
+Proof. exact (dec_thumb32_dual_table w). Qed.
+Print Assumptions C07_thumb32_dual.
+Theorem C07_thumb32_sts w : 0 <= w < 2 ^ 32 ->
+  dec_thumb_store_single_data_item w = eval_leaf no_env None (lookup t32_sts_table (LRet None) w) w.
+Proof. exact (dec_thumb32_sts_table w). Qed.
+Print Assumptions C07_thumb32_sts.
+Theorem C07_thumb32_ldw w : 0 <= w < 2 ^ 32 ->
+  dec_thumb_load_word w = eval_leaf no_env None (lookup t32_ldw_table (LRet None) w) w.
+Proof. exact (dec_thumb32_ldw_table w). Qed.
+Print Assumptions C07_thumb32_ldw.
+Theorem C07_thumb32_dpr w : 0 <= w < 2 ^ 32 ->
+  dec_thumb_data_processing_register w = eval_leaf t32_dpr_env None (lookup t32_dpr_table (LRet None) w) w.
+Proof. exact (dec_thumb32_dpr_table w). Qed.
+Print Assumptions C07_thumb32_dpr.
+Theorem C07_thumb32_mul w : 0 <= w < 2 ^ 32 ->
+  dec_thumb_multiply_multiply_accumulate_and_absolute_difference w = eval_leaf no_env None (lookup t32_mul_table (LRet None) w) w.
+Proof. exact (dec_thumb32_mul_table w). Qed.
+Print Assumptions C07_thumb32_mul.
+Theorem C07_thumb32_lmul w : 0 <= w < 2 ^ 32 ->
+  dec_thumb_long_multiply_long_multiply_accumulate_and_divide w = eval_leaf no_env None (lookup t32_lmul_table (LRet None) w) w.
+Proof. exact (dec_thumb32_lmul_table w). Qed.
+Print Assumptions C07_thumb32_lmul.
+Theorem C07_thumb32_pas w : 0 <= w < 2 ^ 32 ->
+  dec_thumb_parallel_addition_and_subtraction_signed w = eval_leaf no_env None (lookup t32_pas_table (LRet None) w) w.
+Proof. exact (dec_thumb32_pas_table w). Qed.
+Print Assumptions C07_thumb32_pas.
+Theorem C07_thumb32_pau w : 0 <= w < 2 ^ 32 ->
+  dec_thumb_parallel_addition_and_subtraction_unsigned w = eval_leaf no_env None (lookup t32_pau_table (LRet None) w) w.
+Proof. exact (dec_thumb32_pau_table w). Qed.
+Print Assumptions C07_thumb32_pau.
+Theorem C07_thumb32_misc w : 0 <= w < 2 ^ 32 ->
+  dec_thumb_miscellaneous_operations w = eval_leaf no_env None (lookup t32_misc_table (LRet None) w) w.
+Proof. exact (dec_thumb32_misc_table w). Qed.
+Print Assumptions C07_thumb32_misc.
+(* load halfword / load byte groups, for every word whose Rt field is not 1111 (the Rt = 1111 slots are preload hints) *)
+Theorem C07_thumb32_ldh w : 0 <= w < 2 ^ 32 -> in_domains w rt_not_pc ->
+  dec_thumb_load_halfword_memory_hints w = eval_leaf no_env None (lookup t32_ldh_table (LRet None) w) w.
+Proof. exact (dec_thumb32_ldh_table w). Qed.
+Print Assumptions C07_thumb32_ldh.
+Theorem C07_thumb32_ldb w : 0 <= w < 2 ^ 32 -> in_domains w rt_not_pc ->
+  dec_thumb_load_byte_memory_hints w = eval_leaf no_env_res (Val None) (lookup t32_ldb_table (LRet (Val None)) w) w.
+Proof. exact (dec_thumb32_ldb_table w). Qed.
+Print Assumptions C07_thumb32_ldb.
